@@ -111,7 +111,6 @@ def check_case(ctx, out, desc, a, parts_seed):
                               f'{name} of {k!r} is not the sum of the single-part responses',
                               gen_net.pretty(desc), impl=dict(full=str(x[k]), sum=str(y[k]), parts=parts),
                               desc=desc, a=a, parts_seed=parts_seed)
-                break
     # ---- (c) everything deactivated
     try:
         n0 = trf.open_circuitify_current_sources(trf.short_circuitify_voltage_sources(net))
